@@ -47,6 +47,7 @@ enum header_field {
 	HEADER_SEC_WEBSOCKET_VERSION,
 	HEADER_SEC_WEBSOCKET_PROTOCOL,
 	HEADER_SEC_WEBSOCKET_EXTENSIONS,
+	HEADER_UPGRADE,
 };
 
 enum ws_status_code {
@@ -81,6 +82,7 @@ struct websocket {
 	uint8_t sec_web_socket_key[SEC_WEB_SOCKET_KEY_LENGTH + SEC_WEB_SOCKET_GUID_LENGTH];
 	bool sec_web_socket_key_received;
 	bool sec_web_socket_version_received;
+	bool upgrade_to_websocket_requested;
 	enum header_field current_header_field;
 
 	struct {
